@@ -99,6 +99,43 @@ theorem line_skip (q : PState) (ho : Outside q) (b : Bytes) (hb : LineBody b) (n
   rw [step_of_next _ h1, step_of_next _ h2, line_body q q.ctx b hb]
   simp only [loop, stepByte, h3]
 
+/-- an opened block comment whose body never meets a closing `*/`: the parser sits in COMMENT -/
+theorem block_open (q : PState) (ho : Outside q) (b : Bytes) (hb : BlockBody b) :
+    loop q (47 :: 42 :: b) = some (false, inC q (.COMMENT :: q.ctx)) := by
+  obtain ⟨k, K, hk, hkc⟩ := ho.top
+  have h1 : body q 47 = some (.next, inC q (.COMMENT1 :: q.ctx)) := by
+    simp [body, hk, ho.noc, ho.s1, ho.s2, ho.s3, next]
+  have h2 : body (inC q (.COMMENT1 :: q.ctx)) 42 = some (.next, inC q (.COMMENT :: q.ctx)) := by
+    simp [body, afterComment, isCommentCtx, next]
+  have := block_body q q.ctx b hb []
+  rw [List.append_nil] at this
+  rw [step_of_next _ h1, step_of_next _ h2, this]
+  rfl
+
+/-- `value()` while a block comment is open -/
+theorem value_in_comment (q : PState) (K : List Ctx) : value (inC q (.COMMENT :: K)) = none := by
+  unfold value
+  split
+  · rfl
+  · split
+    · rename_i heq
+      have ht : Ctx.COMMENT = _ := (List.cons.inj heq).1
+      subst ht
+      simp
+    · rfl
+
+/-- the flush `parse(" ")` does not leave an open block comment -/
+theorem flush_in_comment (q : PState) (K : List Ctx) :
+    (parse (inC q (.COMMENT :: K)) [32]).map value = some none := by
+  have h1 : body (inC q (.COMMENT :: K)) 32 = some (.next, inC q (.COMMENT :: K)) := by
+    simp [body, afterComment, isCommentCtx, next]
+  unfold parse
+  split
+  · simp [value_in_comment]
+  · have : cstr [32] = [32] := by decide
+    rw [this, step_of_next _ h1]
+    simp [loop, value_in_comment]
+
 /-- in a state reached by the parser, "not in a comment" already says that the context top is a container -/
 theorem outside_of_inv (q : PState) (hi : Inv q) (hc : q.inComment = false) (h1 : q.state ≠ .STRING)
     (h2 : q.state ≠ .QPROPERTY) (h3 : q.state ≠ .ESCAPE) : Outside q := by
